@@ -1,6 +1,6 @@
 """Single source of truth for MANIFEST.json (tools/mkmanifest.py)."""
 
-FIX_COMMITS = ['cca4fac (C19 bbox int coercion)', '1b3ab08 (C05 cutout fill dtype)', '81c7236 (C05 multiply Quantity fill)']
+FIX_COMMITS = ['cca4fac (C19 bbox int coercion)', '1b3ab08 (C05 cutout fill dtype)', '81c7236 (C05 multiply Quantity fill)', '1970dc7 (C20 PixCoord.rotate any shape)', 'c13e427 (C01 polygon scalar contains)']
 HOOK_COMMITS = []
 
 CHECKS = [
@@ -23,6 +23,17 @@ CHECKS = [
              'exercised by the differential run (exact value comparison on dyadic data, input fingerprinted before/after).',
      'note': 'Trusted: Lean kernel/Mathlib/3 std axioms; numpy basic slicing = sliceAssign/sliceRead primitives; numpy dtype casting; '
              'hand model Mask.lean tied to mask.py by the correspondence run. Degenerate empty box / zero-sized image = known finding F16c.'},
+    {'property_id': 'C01',
+     'technique': 'Lean 4 theorems over any ordered field (linear_combination with c^2+s^2=1, nlinarith), parity induction for the even-odd rule; correspondence run',
+     'text': 'contains() of the Impl model is proved equal to the geometric point set for circle (open disk; hypot form over R), '
+             'ellipse (closed, axes w,h along u,u-perp), rectangle (open), annuli (inner subset outer hence outer minus inner, and the shared '
+             'include flag still yields the exact complement), points/lines/text (nothing), for ALL parameters, unit vectors and query points; '
+             'include flag = exact complement for every value in {absent,True,False,1,0}; result shape = query shape for every class. '
+             'Polygons: proved laws of the even-odd implementation (division-free form, edge symmetry, translation invariance, axis rectangles exact, '
+             'confinement to the vertex range via parity of straddling edges); "even-odd = inside" for arbitrary polygons is NOT a theorem '
+             '(needs Jordan curve) and is decided by the differential run against an exact-rational crossing oracle.',
+     'note': 'Trusted: Lean kernel/Mathlib/3 std axioms; hand model Shapes.lean/Region.lean tied to the code by the correspondence run '
+             '(exact rationals, boundary band 1e-9 excepted as C01 allows); np.cos/np.sin/np.hypot correct to a few ulp; the compiled pnpoly .so is what runs.'},
 ]
 
 _PENDING = 'check not built yet in this session (see DESIGN.md build order); not a statement that the technique cannot apply'
